@@ -2060,3 +2060,262 @@ class NamespaceOps:
 for _n, _f in list(NamespaceOps.__dict__.items()):
     if callable(_f) and not _n.startswith("__"):
         setattr(Interp, _n, _f)
+
+
+# ---------------------------------------------------------------------------
+# POP3 (C20) -- mixed into Interp
+#
+class Pop3Ops:
+    async def op_pop_open(self, op):
+        sid = op["s"]
+        p = Pop3Session(self.world, sid)
+        self.world.net.connect(self.node.port, p, addr="10.0.0.2")
+        p.hello()
+        self.pops[sid] = p
+        p.state = {
+            "uidl": None,  # n -> uid (first listing)
+            "size": {},  # n -> size first announced
+            "dele": set(),
+            "inbox": self.model.box("inbox"),
+            "opened_at": self.loop.time(),
+            "retr": {},
+        }
+        await asyncio.sleep(0.2)
+        self.ctx.nontrivial = True
+
+    def _pop_num(self, st, arg, n):
+        if arg == "last":
+            return str(n)
+        if arg == "beyond":
+            return str(n + 1)
+        return str(arg)
+
+    async def op_pop(self, op):
+        p = self.pops.get(op["s"])
+        if p is None or p.lost:
+            return
+        st = p.state
+        n_known = len(st["uidl"]) if st["uidl"] is not None else op.get("nhint", 3)
+        verb = op["verb"].upper()
+        arg = op.get("arg")
+        line = verb
+        if arg is not None:
+            line += " " + self._pop_num(st, arg, n_known)
+        if op.get("arg2") is not None:
+            line += f" {op['arg2']}"
+        status, lines, closed = await p.command(line)
+        self.C("c20_reply")
+        if status is None:
+            if not closed:
+                self.V("C20", "pop3_no_reply", cmd=line)
+            return
+        ok = status.startswith(b"+OK")
+        if not ok and not status.startswith(b"-ERR"):
+            self.V("C20", "pop3_framing", cmd=line, status=status[:60])
+            return
+        box = st["inbox"]
+        argn = None
+        try:
+            argn = int(line.split()[1]) if len(line.split()) > 1 else None
+        except ValueError:
+            argn = None
+        if verb == "UIDL" and ok:
+            pairs = {}
+            if lines is not None:
+                for ln in lines:
+                    a = ln.split()
+                    if len(a) == 2 and a[0].isdigit() and a[1].isdigit():
+                        pairs[int(a[0])] = int(a[1])
+                    else:
+                        self.V("C20", "pop3_framing", cmd=line, line=ln[:40])
+            else:
+                a = status.split()
+                if len(a) >= 3 and a[1].isdigit() and a[2].isdigit():
+                    pairs[int(a[1])] = int(a[2])
+            self._pop_check_uidl(p, pairs, full=lines is not None)
+        elif verb == "LIST" and ok:
+            sizes = {}
+            if lines is not None:
+                for ln in lines:
+                    a = ln.split()
+                    if len(a) == 2 and a[0].isdigit() and a[1].isdigit():
+                        sizes[int(a[0])] = int(a[1])
+                    else:
+                        self.V("C20", "pop3_framing", cmd=line, line=ln[:40])
+            else:
+                a = status.split()
+                if len(a) >= 3 and a[1].isdigit() and a[2].isdigit():
+                    sizes[int(a[1])] = int(a[2])
+            self._pop_check_sizes(p, sizes, line)
+        elif verb == "STAT" and ok:
+            a = status.split()
+            if len(a) >= 3 and a[1].isdigit() and a[2].isdigit():
+                cnt, tot = int(a[1]), int(a[2])
+                if st["uidl"] is not None:
+                    self.C("c20_stat")
+                    live = [n for n in st["uidl"] if n not in st["dele"]]
+                    if cnt != len(live):
+                        self.V("C20", "pop3_snapshot_changed", cmd="STAT", count=cnt, expected=len(live))
+                    elif all(n in st["size"] for n in live) and tot != sum(st["size"][n] for n in live):
+                        self.V("C20", "pop3_size_mismatch", cmd="STAT", total=tot, expected=sum(st["size"][n] for n in live))
+        elif verb in ("RETR", "TOP") and ok and lines is not None and argn is not None:
+            content = b"".join(ln + b"\r\n" for ln in lines)
+            if verb == "RETR":
+                self._pop_check_retr(p, argn, status, content, line)
+            else:
+                tok = corpus.tok_of(content)
+                exp = self._pop_tok(p, argn)
+                self.C("c20_top")
+                if tok is not None and exp is not None and tok != exp:
+                    self.V("C20", "pop3_retr_wrong_message", cmd=line, expected_tok=exp, got_tok=tok)
+        elif verb == "DELE":
+            if ok and argn is not None:
+                self.C("c20_dele")
+                if argn in st["dele"]:
+                    self.V("C20", "pop3_double_dele_ok", n=argn)
+                if st["uidl"] is not None and argn not in st["uidl"]:
+                    self.V("C20", "pop3_invalid_number_ok", cmd=line)
+                st["dele"].add(argn)
+        elif verb == "RSET" and ok:
+            st["dele"] = set()
+        if verb in ("RETR", "TOP", "DELE", "LIST", "UIDL") and argn is not None and ok and st["uidl"] is not None and argn not in st["uidl"]:
+            self.V("C20", "pop3_invalid_number_ok", cmd=line)
+
+    def _pop_tok(self, p, n):
+        st = p.state
+        if st["uidl"] is None or n not in st["uidl"]:
+            return None
+        uid = st["uidl"][n]
+        return st["inbox"].ledger.get(uid)
+
+    def _pop_check_uidl(self, p, pairs, full):
+        st = p.state
+        box = st["inbox"]
+        self.C("c20_uidl")
+        if st["uidl"] is None and full:
+            st["uidl"] = dict(pairs)
+            nums = sorted(pairs)
+            if nums != list(range(1, len(nums) + 1)) and not st["dele"]:
+                self.V("C20", "pop3_framing", cmd="UIDL", why="numbers not 1..n", nums=nums[:20])
+            # learn the UIDs of delivered-but-never-probed messages from the
+            # listing when it lines up with the model's list
+            if len(nums) == len(box.msgs) and all(m.uid is None or m.uid == pairs[i + 1] for i, m in enumerate(box.msgs)):
+                for i, m in enumerate(box.msgs):
+                    if m.uid is None:
+                        m.uid = pairs[i + 1]
+            # UIDL values are IMAP UIDs of INBOX messages: ascending, and each
+            # either already revealed over IMAP or newer than all of those
+            us = [pairs[n] for n in nums]
+            if any(b <= a for a, b in zip(us, us[1:])):
+                self.V("C20", "pop3_uidl_not_imap_uid", why="not ascending", uids=us)
+            for n, uid in pairs.items():
+                if uid not in box.ledger and box.by_uid(uid) is None and uid <= box.max_uid and not box.uncertain and box.uidnext_told and uid >= box.uidnext_told:
+                    self.V("C20", "pop3_uidl_not_imap_uid", n=n, uid=uid, known=sorted(box.ledger)[:20])
+            return
+        if st["uidl"] is None:
+            return
+        for n, uid in pairs.items():
+            if n in st["dele"]:
+                self.V("C20", "pop3_deleted_listed", n=n)
+            elif st["uidl"].get(n) != uid:
+                self.V("C20", "pop3_snapshot_changed", cmd="UIDL", n=n, was=st["uidl"].get(n), now=uid)
+        if full:
+            missing = [n for n in st["uidl"] if n not in pairs and n not in st["dele"]]
+            if missing:
+                self.V("C20", "pop3_snapshot_changed", cmd="UIDL", missing=missing)
+
+    def _pop_check_sizes(self, p, sizes, line):
+        st = p.state
+        self.C("c20_sizes")
+        for n, sz in sizes.items():
+            if n in st["dele"]:
+                self.V("C20", "pop3_deleted_listed", n=n)
+            if n in st["size"] and st["size"][n] != sz:
+                self.V("C20", "pop3_snapshot_changed", cmd=line, n=n, was=st["size"][n], now=sz)
+            st["size"].setdefault(n, sz)
+            got = st["retr"].get(n)
+            if got is not None and got != sz:
+                self.V("C20", "pop3_size_mismatch", cmd=line, n=n, listed=sz, retr_octets=got)
+
+    def _pop_check_retr(self, p, n, status, content, line):
+        st = p.state
+        self.C("c20_retr")
+        tok = corpus.tok_of(content)
+        exp = self._pop_tok(p, n)
+        if tok is not None and exp is not None and tok != exp:
+            self.V("C20", "pop3_retr_wrong_message", cmd=line, n=n, uid=st["uidl"].get(n), expected_tok=exp, got_tok=tok)
+            return
+        a = status.split()
+        octets = len(content)
+        st["retr"][n] = octets
+        if len(a) >= 2 and a[1].isdigit():
+            self.C("c20_retr_size")
+            if int(a[1]) != octets:
+                self.V("C20", "pop3_size_mismatch", cmd=line, announced=int(a[1]), delivered=octets)
+        if n in st["size"] and st["size"][n] != octets:
+            self.V("C20", "pop3_size_mismatch", cmd=line, listed=st["size"][n], delivered=octets)
+        # same bytes as IMAP BODY[] of that UID
+        if st["uidl"] is not None and n in st["uidl"]:
+            box = st["inbox"]
+            ref = self.refbody.get((box.name, box.uvv, st["uidl"][n]))
+            if ref is not None:
+                self.C("c20_retr_equals_imap")
+                if ref[0] != content:
+                    self.V("C20", "pop3_retr_differs_from_imap", cmd=line, uid=st["uidl"][n], imap_len=len(ref[0]), pop_len=len(content))
+
+    async def op_pop_quit(self, op):
+        p = self.pops.get(op["s"])
+        if p is None or p.lost:
+            return
+        st = p.state
+        status, _, closed = await p.command("QUIT")
+        box = st["inbox"]
+        ok = status is not None and status.startswith(b"+OK")
+        if ok and st["uidl"] is not None and any(n not in st["uidl"] for n in st["dele"]):
+            box.uncertain = True  # marked before we ever saw its UIDL entry
+        if ok and st["dele"] and any(m.uid is None for m in box.msgs):
+            box.uncertain = True  # cannot tell which model entries the UIDs name
+        if ok and st["uidl"] is not None and self.compare and not box.uncertain:
+            uids = {st["uidl"][n] for n in st["dele"] if n in st["uidl"]}
+            self.apply_expunge(box, uids)
+            self.others_changed(box, None)
+            if uids:
+                self.ctx.probe("pop3_quit_removed")
+        elif ok and st["dele"]:
+            box.uncertain = True
+        await asyncio.sleep(0.1)
+        p.close()
+        self.pops.pop(op["s"], None)
+        self.blame = ("C20", "pop3_quit_wrong_set")
+        try:
+            await self.after_mutation_pop(box)
+        finally:
+            self.blame = None
+
+    async def after_mutation_pop(self, box):
+        if self.compare:
+            await self.compare_box(box, why="pop3")
+
+    async def op_pop_drop(self, op):
+        p = self.pops.get(op["s"])
+        if p is None:
+            return
+        st = p.state
+        if op.get("reset"):
+            p.abort()
+            self.env.fired("client_reset")
+        else:
+            p.close()
+            self.env.fired("client_eof")
+        self.pops.pop(op["s"], None)
+        await asyncio.sleep(0.2)
+        self.blame = ("C20", "pop3_deleted_without_quit")
+        try:
+            await self.after_mutation_pop(st["inbox"])
+        finally:
+            self.blame = None
+
+
+for _n, _f in list(Pop3Ops.__dict__.items()):
+    if callable(_f) and not _n.startswith("__"):
+        setattr(Interp, _n, _f)
